@@ -18,7 +18,8 @@ CHECKS = {
    text="TLC checks Peer.tla (two engines, every delivery schedule incl. mid-token cuts: InOrder, AllDelivered, HcFirst) and "
         "Script.tla (v3/v2 transcripts with data in any read) exhaustively; simulated behaviours are replayed on real ZmtpEngines "
         "(NULL, PLAIN, CURVE, Noise_XX) step by step, and the same byte stream is fed to the real engine under the TLC schedule, "
-        "one read, token-per-read, byte-per-read and random cuts - the app actions must be identical.",
+        "one read, token-per-read, byte-per-read and random cuts - the app actions must be identical. Blind transcripts (the peer "
+        "sends greeting, handshake and data without waiting) exist for NULL, CURVE / Noise_XX and PLAIN with the right and the wrong password.",
    note="Engine level is exact; the socket-level path (session actor applying handshake output) is exercised by the socket part of "
         "this check when built. Trusted: harness tokenizer/projection (harness/src/eng.rs, peer.rs, script.rs).",
    technique="TLA+ spec (Engine/Peer/Script.tla) + TLC; TLC behaviours replayed on the real engine; segmentation metamorphic oracle on real bytes",
@@ -63,7 +64,8 @@ CHECKS = {
    design_ref="DESIGN.md 2.1 (B2), 4.4, 5 (C08)"),
  "C18": dict(
    text="TLC checks SecureChannel.tla exhaustively (records with per-direction counters, heartbeats as records, size classes "
-        "around the 64 KiB record limit, one or two network mutations: flip/drop/dup/swap/cut): NoWrongDelivery, SelfDecodable, "
+        "around the 64 KiB record limit, one or two network mutations: flip/drop/dup/swap/cut/cross-session/reflection of the "
+        "receiver's own record): NoWrongDelivery, SelfDecodable, "
         "TamperCloses. Simulated behaviours are replayed on two real engines after real CURVE and Noise_XX handshakes; the "
         "mutations are applied to the real ciphertext; plaintext markers are searched in everything sent; two sessions with the "
         "same static keys must not repeat a record.",
@@ -72,13 +74,13 @@ CHECKS = {
    technique="TLA+ spec (SecureChannel.tla) + TLC; TLC behaviours incl. ciphertext mutations replayed on two real engines (CURVE, Noise_XX)",
    design_ref="DESIGN.md 5 (C18)"),
  "C19": dict(
-   text="TLC checks Heartbeat.tla exhaustively for (ivl,timeout) in {(1,1),(1,2),(2,1),(2,3)} and a ZMTP/2.0 session over a bounded "
-        "clock: PingWindow, PingAfterIdle, NotOverdue, ClosedOnlyWhenDead, DeadDetected, NoHbOnV2, WholeChunks, DataFifo, PongEcho. "
+   text="TLC checks Heartbeat.tla exhaustively for (ivl,timeout) in {(1,1),(1,2),(1,3),(2,1),(2,3)} and a ZMTP/2.0 session over a bounded "
+        "clock: PingWindow, PingAfterIdle, NotOverdue, ClosedOnlyWhenDead, DeadDetected (an unanswered PING is never re-armed: the deadline of the real engine is read back after every tick), NoHbOnV2, WholeChunks, DataFifo, PongEcho. "
         "Simulated timelines are replayed on a real engine (on_tick on the model clock) and the real EgressBuffer with partial "
-        "writes; PING contexts of 0/1/16/17 bytes; the bytes leaving the buffer are parsed back into whole frames. At socket level a raw peer completes the handshake and then stays silent, answers every PING, or streams data without answering (and a ZMTP/2.0 peer): PING times, contexts and the end of the connection are validated by TLC against the clauses of Heartbeat.tla (Trace_Heartbeat.tla).",
+        "writes; PING contexts of 0/1/16/17 bytes; the bytes leaving the buffer are parsed back into whole frames. At socket level a raw peer completes the handshake and then stays silent, answers every PING, or streams data without answering (and a ZMTP/2.0 peer; HEARTBEAT_IVL / TIMEOUT 200/300, 300/150 and 100/700): PING times, contexts and the end of the connection are validated by TLC against the clauses of Heartbeat.tla (Trace_Heartbeat.tla).",
    note="The tokio interval timer is assumed to tick every HEARTBEAT_IVL; socket-level timing is checked with slack only. "
         "io_uring backend: no heartbeat clock (known finding, see C20).",
-   technique="TLA+ spec (Heartbeat.tla) + TLC; TLC timelines replayed on the real engine and egress buffer",
+   technique="TLA+ spec (Heartbeat.tla) + TLC; TLC timelines replayed on the real engine and egress buffer; TLC trace validation (Trace_Heartbeat.tla) of socket-level runs against a raw peer",
    design_ref="DESIGN.md 5 (C19)"),
  "C01": dict(
    text="Delivery.tla is the property-level specification (Offer/Accept/Refuse/Deliver/Quiesce: exactly once, per-connection "
@@ -108,20 +110,24 @@ CHECKS = {
         "CursorInRange, WaiterWakes, WaitingIsRegistered. Simulated histories are replayed on the real orchestrator with "
         "scripted connections (chosen peer per send compared; exactly-one / never-full / never-removed / not-refused-with-room / "
         "rotation-fairness judged on the real outcome); wait_for_connection runs under the controlled scheduler with the peer "
-        "added at every point; real PUSH with 3 PULLs (stalled, late, leaving, send-before-first-peer) is validated by TLC "
+        "added at every point; real PUSH with 3 PULLs (stalled, late, leaving, send-before-first-peer, several tasks waiting in send() "
+        "for the first peer, an endpoint that accepts and never answers) is validated by TLC "
         "against Delivery.tla.",
-   note="Scripted connections abstract pipe fullness at component level; socket-level fairness uses a 10% tolerance.",
+   note="Scripted connections abstract pipe fullness at component level; socket-level fairness uses a 10% tolerance. Known finding "
+        "C13-d (connections enter the rotation before their handshake completed).",
    technique="TLA+ spec (Balancer.tla, Delivery.tla) + TLC; histories replayed on the real load balancer; controlled-scheduler schedules; TLC trace validation of socket histories",
    design_ref="DESIGN.md 4.5, 5 (C13)"),
  "C10": dict(
    text="TLC checks ReqRep.tla (every API call a process: serialiser / state check / await / state update; 3 concurrent callers "
         "x 3-4 calls, every interleaving and call sequence): ReqAlternates, RepAlternates, RepliesMatch. Real REQ/REP sockets: "
         "calling tasks run under the controlled scheduler and two racing calls are held exactly after the state check in every "
-        "order (exactly one may succeed, the loser gets InvalidState, the reply reaches the right requester); every sequence "
+        "order, for recv(), recv_multipart() and mixed calls (exactly one may succeed, the loser gets InvalidState, the reply reaches "
+        "the right requester); a reply that arrives after RCVTIMEO; every sequence "
         "of <= 4/5 calls on a real REQ and a real REP (tcp, inproc) is recorded and validated by TLC against the state machines "
         "(Trace_ReqRep).",
    note="Interleavings are explored at the hook after the state check and at awaits, not inside lock-protected sections. "
-        "Sequential histories use cooperative peers; timeouts count as failed calls that change nothing.",
+        "Sequential histories use cooperative peers; timeouts count as failed calls that change nothing. Known finding C10-b (a REQ whose "
+        "recv() timed out accepts a new send()).",
    technique="TLA+ spec (ReqRep.tla) + TLC; controlled-scheduler interleaving of racing calls on real sockets; TLC trace validation of call histories",
    design_ref="DESIGN.md 4.6, 5 (C10)"),
  "C11": dict(
@@ -131,7 +137,8 @@ CHECKS = {
         "invariants evaluated on the real maps; delimiter helpers are checked for every payload shape. Real ROUTER sockets with "
         "DEALER/REQ peers (distinct, absent, 255-byte identities; payloads with empty frames in every position; mandatory on/off; "
         "reconnect with the same identity; tcp/ipc/inproc/io_uring): identity frame == sender's ROUTING_ID, echoes and addressed "
-        "messages reach only the addressed peer unchanged, unroutable -> HostUnreachable / silent drop.",
+        "messages reach only the addressed peer unchanged (replies of every shape: empty first, middle, only frame), unroutable -> "
+        "HostUnreachable / silent drop.",
    note="Socket-level order of connect / first message / identity announcement is whatever the runtime produces (observed, not "
         "enumerated). Known finding C11-u (io_uring ROUTER ignores the peer's socket type).",
    technique="TLA+ spec (Router.tla) + TLC exhaustive history export replayed on the real RouterMap; recorded socket histories checked against the property",
@@ -142,8 +149,9 @@ CHECKS = {
         "AnonymousIngressEngine (the served connection is the real queue's choice, everything else compared; the frames handed out "
         "must always form whole messages). Real sockets: payload shapes (1..250 frames, empty frames anywhere, sizes across "
         "255/256, frames without MORE flags) x recv / recv_multipart / mixed x PUSH-PULL, DEALER<->ROUTER, PUB-SUB, concurrent "
-        "peers, a peer detaching mid-read, 251+/256 frames refused at the sender; the receiver's frame stream is regrouped by MORE "
-        "flags and compared with what was sent.",
+        "peers, a peer detaching while the application is half-way through another peer's message (ROUTER, DEALER, SUB, DEALER-DEALER), "
+        "frame-wise send(MORE) on every sending socket type, frame-wise recv() on REQ / REP, 251+/256 frames refused at the sender; the "
+        "receiver's frame stream is regrouped by MORE flags and compared with what was sent.",
    note="Engine-side assembly of MORE frames and the frame cap are checked in C07 (Script.tla MoreRuns). All-empty messages are "
         "checked by sizes only; for PUB only wholeness is demanded (drops allowed).",
    technique="TLA+ spec (Ingress.tla, Engine.tla) + TLC; histories replayed on the real ingress engine; recorded socket frame streams checked against the property",
@@ -151,7 +159,8 @@ CHECKS = {
  "C14": dict(
    text="TLC checks Hwm.tla (bounded path, send() with SNDTIMEO in {-1,0,T} against a consumer that drains when it pleases, "
         "integer clock): Timeo0, TimeoPos, TimeoInf, Bound, RefusedNotDelivered, DeliveredPrefix; and Session.tla's EgressBound. "
-        "Real sockets with a reader that stalls and later starts (PUSH/PULL, DEALER/ROUTER, PUB/SUB; tcp/ipc/inproc; HWM 1..256): "
+        "Real sockets with a reader that stalls and later starts (PUSH/PULL, DEALER/ROUTER, PUB/SUB; tcp/ipc/inproc; HWM 1..256; the "
+        "sender connecting or binding; RCVTIMEO different from SNDTIMEO): "
         "every send()/recv() is recorded with its timeout option, result and duration and validated by TLC against the timeout "
         "clauses (Trace_Timeo); messages accepted while the reader stalls are counted against 2*SNDHWM + 2*RCVHWM + 16 + kernel "
         "allowance; the histories with refusals are validated against Delivery.tla.",
@@ -198,7 +207,8 @@ CHECKS = {
         "streaming numbered messages while faults hit another connection (garbage in each phase, oversize frame, RST, half-close, "
         "wrong socket type raw and by real sockets, wrong PLAIN credentials, bursts of aborted connects), then a late peer; outbound "
         "connections against a listener that drops every connection, a dead port (also while other sockets of the context come and "
-        "go), a listener that goes away and comes back. The history sets Isolation's variables in Trace_Isolation.tla; TLC evaluates "
+        "go), a listener that goes away and comes back, a connection that flaps and then meets a dead port (inherited attempt count), "
+        "a storm of >256 bus events between two polls of a busy socket. The history sets Isolation's variables in Trace_Isolation.tla; TLC evaluates "
         "OnlyUserStops on every state, FaultLocal / ComesBack per run and Backoff's clauses on every measured gap.",
    note="Measured gaps: -15 ms / +450 ms (100 ms maintenance tick, connect and handshake time). RECONNECT_IVL_MAX < RECONNECT_IVL is "
         "treated as not set. The connecter's loop is compared with its transcription through its ConnectRetried intervals (drift only).",
@@ -225,7 +235,8 @@ CHECKS = {
         "NothingLost, CancelledNotSent, NoStranded - and must show the loss when the re-arm await of pop() can park. On real sockets every "
         "call of a stream of send / send_multipart / recv / recv_multipart calls is dropped after its k-th Pending poll (k = 1..3, counted by "
         "the harness), under back-pressure, with several senders feeding one receiver, with SNDTIMEO / RCVTIMEO cancelling internally, for "
-        "PUSH/PULL, DEALER/ROUTER, ROUTER/DEALER, PUB/SUB, REQ/REP over tcp / ipc / inproc; afterwards normal calls continue on the same "
+        "PUSH/PULL, DEALER/ROUTER, ROUTER/DEALER, PUB/SUB, REQ/REP (no peer, full pipe, waiting for the reply) over tcp / ipc / inproc; "
+        "afterwards normal calls continue on the same "
         "sockets. The history is validated by TLC against Delivery.tla (nothing twice, nothing partial, nothing accepted lost, order per "
         "connection; a cancelled send delivered once whole or not at all) and the call sequences against Trace_Cancel.tla (never a state in "
         "which every next call is rejected). The cancellation of a blocked send() inside ReadyPipeQueue is explored under the controlled "
